@@ -44,6 +44,10 @@ def apply(name):
         from streamz import sources as so
         mutate(so.FromKafkaBatched, "poll_kafka", "_tp = ck.TopicPartition(topic, part_no, offset + 1)", "_tp = ck.TopicPartition(topic, part_no, offset)")
         return
+    if name == "dask_gather_no_wait":
+        from streamz import dask as sd
+        mutate(sd.gather, "update", "result2 = yield self._emit(result, metadata=metadata)", "result2 = self._emit(result, metadata=metadata)")
+        return
     if name == "corrupt_log":
         return
     table[name]()
